@@ -12,6 +12,8 @@ ASSUMPTIONS = ["every cohort's first-interval survival share >= 1/20 (the proper
                "scipy.linalg.solve_triangular satisfies its documented contract (fresh x with tri(a) x = b); LAPACK itself is trusted"]
 OUTSIDE = ["n beyond the bound", "IEEE rounding / conditioning of the triangular solve"]
 BOUNDS = {"quick": dict(n=[3, 4], extra=["-", "r2"], grids=dsm.GRIDS), "thorough": dict(n=[3, 4, 5, 6], extra=["-", "r2", "r2xp2"], grids=dsm.GRIDS)}
+# dtype shadow: every shadowed configuration is run once more on integer-dtype arrays (differential concrete run)
+DTYPE_SHADOW = lambda cfg: cfg["h"] != "fixed_concrete"
 OPTS = {"quick": dict(shadow_every=3, timeout_ms=20000), "thorough": dict(shadow_every=5, timeout_ms=120000)}
 
 
